@@ -82,6 +82,16 @@ def main():
                                                observations=rec['observations'][:12],
                                                assume_failed=rec['assume_failed'][:3]))
                         break
+                    other = [o for o in rec['obligations'] if o['status'] == 'cex']
+                    if other and not rec['assume_failed'] and rec['status'] == 'done':
+                        # the concrete run of this input on the real code fails ANOTHER obligation (e.g. the symbolic
+                        # run stopped at an exception that real arithmetic does not raise): a real violation all the
+                        # same, reported under the obligation that fails concretely
+                        res = dict(reproduced=True, mode=mode, label=other[0]['label'], sig=other[0].get('sig'),
+                                   detail=dict(info=other[0].get('info'), status=rec['status'], exc=None,
+                                               observations=rec['observations'][:12], assume_failed=[],
+                                               symbolic_obligation=[it['label'], it.get('sig')]))
+                        break
                     res['why'] = (f"mode {mode}: status={rec['status']} {rec.get('exc') or ''} failing="
                                   f"{[(o['label'], o.get('sig')) for o in rec['obligations'] if o['status'] == 'cex'][:4]} "
                                   f"assume_failed={rec['assume_failed'][:2]} notes={rec['notes'][:2]}")
